@@ -86,6 +86,9 @@ func bubble(t *testing.T, f func(t *testing.T)) {
 	synctest.Test(t, f)
 }
 
+// declareLen, when >= 0, is the Content-Length the next request declares whatever its body holds.
+var declareLen = -1
+
 // wrapBody, when set, wraps the body reader of the next request (a stalled upload).
 var wrapBody func(io.Reader) io.Reader
 
@@ -250,6 +253,9 @@ func (w *world) request(method, target string, hdr http.Header, body []byte, dec
 		req.ContentLength = -1
 	} else if body != nil {
 		req.ContentLength = int64(len(body))
+		if declareLen >= 0 {
+			req.ContentLength = int64(declareLen)
+		}
 	}
 	for k, v := range hdr {
 		req.Header[k] = v
@@ -332,6 +338,7 @@ type wsClient struct {
 	// a WebTransport client over the QUIC loopback (sesq_test.go)
 	wtSess *webtransport.Session
 	wtConn *ewt.Conn
+	stalled chan struct{} // non-nil: the read loop waits here before its next read
 	seen   int // frames already taken (the real-time quiescence sampler counts every frame once)
 }
 
@@ -396,9 +403,23 @@ func (w *world) wsDial(target string, hdr http.Header, viaMux bool) *wsClient {
 	return c
 }
 
+// stall makes the client stop reading after the message it is waiting for (then the server's writes block).
+func (c *wsClient) stall() {
+	c.mu.Lock()
+	c.stalled = make(chan struct{})
+	c.mu.Unlock()
+	idle()
+}
+
 func (c *wsClient) readLoop() {
 	defer close(c.readDone)
 	for {
+		c.mu.Lock()
+		st := c.stalled
+		c.mu.Unlock()
+		if st != nil {
+			<-st
+		}
 		mt, data, err := c.conn.ReadMessage()
 		c.mu.Lock()
 		if err != nil {
